@@ -5,6 +5,8 @@ import GBProofs.AngMom
 import GBProofs.MomentMotion
 import GBProofs.AngMomMotion
 import GBProofs.SphRotation
+import GBProofs.ArrayMotion
+import GBProofs.ArrayMotion2
 /-!
 # C12 — covariance under every rigid motion (translations, proper and improper rotations)
 
@@ -36,6 +38,18 @@ the model's `2l+1` functions span them (`sphFam_span`, `l ≤ 10`), hence `T·D(
 `W = T D S Tᵀ` (`transTab_mul_sphRep`, `sphRepM_orthogonal`) and the functions of a moved spherical shell are `W` applied to the
 original ones, contraction norms included (`sphFnE_moved`); with the lifting theorems this gives the covariance of every
 integral over spherical shells.
+
+`ArrayMotion.lean`: the **assembled arrays of a whole mixed Cartesian / spherical basis** — `Basis.moved`, the block-diagonal
+`basisRep b R` (per shell and segment: `repMat` for a Cartesian shell, `sphRep` for a pure one), the generic lemma
+`entry2_moved_of_blocks` (if every shell-pair block transforms with the shells' `repMat`s, the assembled array transforms with
+`basisRep`, contraction norms and Cartesian-to-spherical matrices included) and its instances `overlap_array_moved`,
+`kinetic_array_moved`, `pointCharge_array_moved` (charges moved along), also for the flat arrays (`…_flat_moved`);
+`basisFnE_moved` is the function-level reading.  `ArrayMotion2.lean` completes the list: `basisRep` is the identity when the linear part
+is (hence `overlap_/kinetic_/pointCharge_/eri_/momentum_/moment_array_translate`: **translation invariance of the arrays**, and
+`angmom_array_translate`: L′ = L + v × P), the four-index generic lemma `entry4_moved_of_blocks` with `eri_array_moved`, the
+tensor-index generic lemma `entry2_moved_of_blocks_tensor` with `momentum_array_moved` (vector), `moment_array_moved` (tensor, origin
+moved along) and `angmom_array_moved` (pseudo-vector plus the origin term), and `basisRep_metric` (the representation preserves the
+block-diagonal metric: identity on pure shells, `Sov` on Cartesian ones; plain orthogonality for all-spherical bases).
 -/
 namespace GB.C12
 alias block_covariant_overlap := overlapBlock_moved
@@ -48,4 +62,12 @@ alias block_covariant_moment := momentBlock_moved
 alias block_covariant_angular_momentum := angmomBlock_moved
 alias spherical_shell_representation := sphFnE_moved
 alias spherical_representation_orthogonal := sphRep_orthogonal
+alias overlap_array_covariant := overlap_array_moved
+alias kinetic_array_covariant := kinetic_array_moved
+alias point_charge_array_covariant := pointCharge_array_moved
+alias eri_array_covariant := eri_array_moved
+alias momentum_array_covariant := momentum_array_moved
+alias moment_array_covariant := moment_array_moved
+alias angular_momentum_array_covariant := angmom_array_moved
+alias overlap_array_translation_invariant := overlap_array_translate
 end GB.C12
